@@ -13,7 +13,7 @@ func init() {
 		Name:     "C02",
 		Property: "C02",
 		Gen:      genC02,
-		Oracles:  []func(o *Outcome) []Violation{livenessOracle("C02"), servedOracle("C02")},
+		Oracles:  []func(o *Outcome) []Violation{livenessOracle("C02"), servedOracle("C02"), respOracle("C02", "wrong-body", "wrong-status", "wrong-key", "unattributable-response")},
 		NonTrivial: func(o *Outcome) bool {
 			return o.Hist.Probes["request-blocked-behind-fetch"] > 0
 		},
@@ -96,6 +96,7 @@ func genC02(g *Gen) *Plan {
 			if i == 0 && g.p(0.3) {
 				op.Barrier = true
 			}
+			op.Cancellable = g.p(0.12) // its client may disconnect while it is parked or in flight
 			p.Ops = append(p.Ops, op)
 			if g.p(0.08) {
 				p.Ops = append(p.Ops, Op{Kind: OpPurge, Cache: pick(g, "c1", "c1", ""), Key: method + " " + hostA + " " + k})
